@@ -61,7 +61,10 @@ CONSTANTS MaxDepth,      \* longest chain of path-symbol definitions
           RichPhases,    \* phases in which the large sets of shapes are explored
           DeepPhases,    \* phases in which chains of depth >= 2 are explored
           CdPos,         \* positions of a context `cd`: 0 none, 1 before the definitions, 2 between definitions and use,
-                         \* 3 after the use, followed by a second use of the same path expression
+                         \* 3 after the use, followed by a second use of the same path expression;
+                         \* 4: no cd, but a MENTION of the last path symbol - a reference in a position that puts no
+                         \* restriction on it (an argument of a program) - before the use: what an argument accepts
+                         \* is decided for every reference, not once per symbol
           CdForms,       \* forms of the context `cd`: "tmp" (cd -rel-tmp c), "sub" (cd c)
           MayReject,     \* TRUE: where the property leaves a choice (accept or reject) both are explored as
                          \* behaviours; FALSE (random simulation): only "accept" is, the other is MayRejectOutcome
@@ -111,7 +114,7 @@ Must(r, ph) == CASE r \in {"file", "dir", "copydst"} -> {"act", "tmp", "cd"}
                  [] r = "cd"          -> {"act", "tmp", "cd"} \cup (IF ph \in PostAct THEN {"result"} ELSE {})
                  [] r = "copysrc"     -> Five \cup (IF ph \in PostAct THEN {"result"} ELSE {})
                  [] r = "dircontents" -> {"acthome", "act", "tmp", "cd"}
-                 [] r = "def"         -> Opts \cup {"abs"}
+                 [] r \in {"def", "mention"} -> Opts \cup {"abs"}
                  [] OTHER             -> Five
 \* relativities about which the property is silent: for arguments that are only read, the property claims the
 \* resolution of what is accepted, not the rejection of the rest.  `cd` neither creates nor modifies: the manual
@@ -165,7 +168,7 @@ Loc(v, dir) == IF v.phys = "cd" THEN [root |-> dir.root, comps |-> dir.comps \o 
 
 \* ---- the case ---------------------------------------------------------------------------------
 Layout == (IF cdpos = 1 THEN <<"cd">> ELSE <<>>) \o [j \in 1..depth |-> "def"]
-          \o (IF cdpos = 2 THEN <<"cd">> ELSE <<>>) \o <<"use">>
+          \o (IF cdpos = 2 THEN <<"cd">> ELSE <<>>) \o (IF cdpos = 4 THEN <<"mention">> ELSE <<>>) \o <<"use">>
           \o (IF cdpos = 3 THEN <<"cd", "use">> ELSE <<>>)
 \* with two uses, use k designates the entry uk below the path the expression denotes
 Leaf(k) == IF cdpos # 3 THEN <<>> ELSE IF k = 1 THEN <<"u1">> ELSE <<"u2">>
@@ -181,7 +184,7 @@ CtxCdExpr == [rel |-> IF cdform = "tmp" THEN "tmp" ELSE "default", sym |-> 0, sf
 BaseOk(x, r) ==
   /\ (x.rel = "here") => ~SfxAbs(x.sfx)          \* (-rel-here outside `def`: "only available when defining")
   /\ Bad(x) => (role \in WriteRoles \cup {"cd"})     \* RELATIVITY + absolute FILE-NAME: only where writing is at stake
-  /\ (cdpos # 0) => LET decl == IF x.rel = "default" THEN Default(r) ELSE x.rel IN
+  /\ (cdpos \in 1..3) => LET decl == IF x.rel = "default" THEN Default(r) ELSE x.rel IN
                      /\ ~SfxAbs(x.sfx)
                      /\ decl = "cd" \/ (cdpos = 3 /\ decl = "act")      \* (act: a control the cd must not affect)
 LinkOk(x) ==
@@ -193,7 +196,8 @@ Init ==
   /\ (depth >= 2) => (phase \in DeepPhases \/ SinglePhase)
   /\ cdpos \in CdPos /\ (cdpos = 2 => depth >= 1)
   /\ (cdpos = 3) => (role \notin {"cd", "actprog"} /\ (phase \in DeepPhases \/ SinglePhase))
-  /\ cdform \in (IF cdpos = 0 THEN {"-"} ELSE CdForms)
+  /\ (cdpos = 4) => (depth >= 1 /\ role # "actprog" /\ (phase \in DeepPhases \/ SinglePhase))
+  /\ cdform \in (IF cdpos \in {0, 4} THEN {"-"} ELSE CdForms)
   /\ prog = <<>> /\ stage = "build" /\ pc = 1 /\ symtab = <<>>
   /\ cwd = [root |-> "act", comps |-> <<>>]           \* "act directory: the current directory when [setup] begins"
   /\ outcome = "-" /\ uses = <<>> /\ created = {} /\ nexec = 0
@@ -206,6 +210,10 @@ Extend(ins) == /\ prog' = Append(prog, ins)
 AddCd ==
   /\ stage = "build" /\ Slot = "cd" /\ Frame
   /\ Extend([op |-> "cd", role |-> "cd", x |-> CtxCdExpr])
+
+AddMention ==
+  /\ stage = "build" /\ Slot = "mention" /\ Frame
+  /\ Extend([op |-> "mention", role |-> "mention", x |-> [rel |-> "ref", sym |-> depth, sfx |-> "E"]])
 
 AddBase ==
   /\ stage = "build" /\ Slot = "def" /\ NumDefs(prog) = 0 /\ Frame
@@ -325,6 +333,10 @@ ExecDef ==
   /\ cwdAtDef' = IF cwdAtDef = NoLoc THEN cwd ELSE cwdAtDef
   /\ Step /\ UNCHANGED <<cwd, uses, created>>
 
+ExecMention ==       \* the program mentioned runs with the path as an argument: no effect on anything modelled
+  /\ stage = "exec" /\ prog[pc].op = "mention" /\ Frame
+  /\ Step /\ UNCHANGED <<cwd, uses, created, cwdAtDef>>
+
 ExecCd ==
   /\ stage = "exec" /\ prog[pc].op = "cd" /\ Frame
   /\ cwd' = Loc(Eval(prog[pc].x, symtab, Default("cd")), cwd)
@@ -339,8 +351,8 @@ ExecUse ==
      /\ cwd' = IF role = "cd" THEN l ELSE cwd
   /\ Step /\ UNCHANGED cwdAtDef
 
-Next == AddCd \/ AddBase \/ AddLink \/ AddUse \/ AddUseAgain \/ ParseOk \/ ParseReject \/ ValidateOk \/ ValidateReject
-        \/ ExecDef \/ ExecCd \/ ExecUse
+Next == AddCd \/ AddMention \/ AddBase \/ AddLink \/ AddUse \/ AddUseAgain \/ ParseOk \/ ParseReject \/ ValidateOk
+        \/ ValidateReject \/ ExecDef \/ ExecMention \/ ExecCd \/ ExecUse
 Spec == Init /\ [][Next]_vars
 
 \* ---- the path the use instruction denotes, read off the program text ----------------------------
